@@ -117,8 +117,18 @@ impl Lane for C15 {
         };
         let max = if rng.chance(1, 5) { max } else { max.min(24) };
         let gen = *rng.pick(&["tournament", "tournament", "recursive_tree", "erdos_renyi", "erdos_renyi"]);
-        let mut order = if rng.chance(1, 2) { draw_order_tail(rng, max).min(600) } else { draw_order(rng, max) };
+        let mut order = if rng.chance(1, 200) {
+            // around the multiples of 512 (batch sizes) and other giants
+            *rng.pick(&[511, 512, 513, 514, 600])
+        } else if rng.chance(1, 2) {
+            draw_order_tail(rng, max).min(600)
+        } else {
+            draw_order(rng, max)
+        };
         let mut p = draw_p(rng);
+        if order > 300 && rng.chance(1, 2) {
+            p = *rng.pick(&[0.0, 1.0, 1.0]);
+        }
         // injected faults: inadmissible arguments (must panic)
         match rng.below(24) {
             0 => order = 0,
